@@ -190,6 +190,7 @@ class Scenario:
         from ncclient.operations.edit import Commit
         spec = self.spec
         S = sched.S = Sched(decisions=self.decisions, seed=self.seed, eager_timeouts=bool(spec.get('eager')), rng_after=self.rng_after)
+        S.release_points = True
         install()
         dh = make_device_handler({'name': spec.get('profile', 'default')})
         sock = FakeSock()
